@@ -12,6 +12,7 @@ pub mod c10;
 pub mod c11;
 pub mod c12;
 pub mod c13;
+pub mod c14;
 pub mod c15;
 pub mod c17;
 pub mod c18;
@@ -33,6 +34,7 @@ pub fn lookup(name: &str) -> Option<fn(&mut Ctx)> {
         "C11" => Some(c11::run),
         "C12" => Some(c12::run),
         "C13" => Some(c13::run),
+        "C14" => Some(c14::run),
         "C15" => Some(c15::run),
         "C16" => Some(c15::run_c16),
         "C17" => Some(c17::run),
